@@ -484,6 +484,10 @@ func (w *W) execLog(task int, op *scen.Op) {
 	if len(op.X) > 0 {
 		msg = string(op.X)
 	}
+	if op.J > 0 {
+		// a long message: J bytes of padding after the text (kept out of the scenario document)
+		msg += " " + strings.Repeat("0123456789abcdef", int(op.J)/16+1)[:op.J]
+	}
 	args := w.args(op.Args)
 	var ctx context.Context
 	ctx = w.buildCtx(op.Ctx)
